@@ -315,6 +315,19 @@ def build_source(src_enc, text, layout):
         return bnp.as_encoded_array(text, src_enc), [text]
     if layout == 'scalar':
         return bnp.as_encoded_array(text, src_enc)[0], [text]
+    if isinstance(layout, (list, tuple)) and layout and layout[0] == 'view':
+        # a ragged array that is still a lazy, non-contiguous VIEW of another one (nothing has flattened it yet)
+        how, lengths = layout[1], layout[2]
+        rows = A.split_rows(text, lengths)
+        if how == 'rowrev':
+            return bnp.as_encoded_array(rows[::-1], src_enc)[::-1], rows
+        if how == 'fancy':
+            return bnp.as_encoded_array(rows[::-1], src_enc)[list(range(len(rows) - 1, -1, -1))], rows
+        if how == 'colrev':
+            return bnp.as_encoded_array([r[::-1] for r in rows], src_enc)[:, ::-1], rows
+        if how == 'tail':
+            return bnp.as_encoded_array([rows[-1]] + rows, src_enc)[1:], rows
+        raise ValueError(layout)
     rows = A.split_rows(text, layout)
     return bnp.as_encoded_array(rows, src_enc), rows
 
@@ -338,6 +351,10 @@ def _snapshot(x):
     return (id(x.encoding), np.asarray(x.raw()).tobytes())
 
 
+def _snapshot_lazy(x):
+    return None
+
+
 def _sources(src, src_enc, text, layouts, res, cache):
     """Build (once per (source alphabet, text)) the source objects of every layout and verify that they hold
     the text.  -> list of [layout name, rows, object, snapshot]"""
@@ -357,7 +374,7 @@ def _sources(src, src_enc, text, layouts, res, cache):
             # the source itself is not constructible as stated: judged by the encode part, not here
             res.extra['retarget_source_not_constructible(judged in encode part)'] += 1
             continue
-        lname = layout if isinstance(layout, str) else 'ragged' + str(list(layout))
+        lname = layout if isinstance(layout, str) else ('view-%s%s' % (layout[1], list(layout[2])) if layout and layout[0] == 'view' else 'ragged' + str(list(layout)))
         sources.append([lname, rows, x, _snapshot(x), layout])
     if cache is not None:
         cache['key'] = key
@@ -381,13 +398,19 @@ def check_retarget(res, case, cache=None):
         for entry in sources:
             lname, rows, x, snap, layout = entry
             res.transitions += 1
+            if isinstance(layout, (list, tuple)) and layout and layout[0] == 'view':
+                # observing a view flattens it in place: every call gets a fresh, still lazy view
+                x, _ = build_source(src_enc, text, layout)
+                snap = _snapshot_lazy(x)
             try:
                 out = fn(x, tgt_enc)
             except Exception as e:
                 res.raising += 1
                 summary.add('raises:' + exc_name(e))
                 out = None
-            if _snapshot(x) != snap:
+            if isinstance(layout, (list, tuple)) and layout and layout[0] == 'view':
+                pass        # (a view is rebuilt for every call; flattening by the callee is not a content change)
+            elif _snapshot(x) != snap:
                 # the call modified its input (purity is C20's subject); never reuse a modified source
                 res.extra['retarget_call_modified_its_input(C20, not judged here)'] += 1
                 entry[2], _ = build_source(src_enc, text, layout)
@@ -395,7 +418,13 @@ def check_retarget(res, case, cache=None):
             if out is None:
                 continue
             returned.append(lname)
-            ob = observe_rows(out)
+            try:
+                ob = observe_rows(out)
+            except observe.ObserverError:
+                raise
+            except Exception as e:
+                # the returned object cannot even be read (inconsistent shape/data): an observation about the library
+                ob = ('unreadable', '%s: %s' % (exc_name(e), str(e)[:120]))
             if ob == ('rows', rows):
                 summary.add('same-text')
                 if getattr(out, 'encoding', None) != tgt_enc:
@@ -620,6 +649,11 @@ def retarget_layouts(n, quick, seed, big):
     out = ['flat']
     if n == 1:
         out.append('scalar')
+    if n >= 2:
+        for how in ('rowrev', 'fancy', 'colrev', 'tail'):
+            out.append(['view', how, [1, n - 1]])
+            if not quick and n >= 3:
+                out.append(['view', how, [2, n - 2]])
     if quick:
         out.append([1, n - 1])             # core
         if n <= 2:                         # extension slice (rotated by VERIF_SEED); thorough has every split
